@@ -126,6 +126,15 @@ CDas2 == [k |-> "comment", v |-> <<97, 45>>]
 PIxml == [k |-> "pi", n |-> <<88, 109, 76>>, v |-> <<>>]
 CDCtl == [k |-> "cdata", v |-> <<120, 11>>]
 
+XBadV == [k |-> "xmldecl", ver |-> <<50, 46, 48>>, enc |-> <<>>, sa |-> "none"]             \* version="2.0"  [26]
+XBadE == [k |-> "xmldecl", ver |-> <<49, 46, 48>>, enc |-> <<56, 117>>, sa |-> "none"]       \* encoding="8u"  [81]
+DTBadP == [k |-> "doctype", n |-> Na, ext |-> "public", pub |-> <<97, 123>>, sys |-> <<115>>, subset |-> FALSE]  \* '{' [13]
+CFfff == [k |-> "comment", v |-> <<97, 65535>>]
+PICtl == [k |-> "pi", n |-> Nt, v |-> <<100, 11>>]
+XE   == [k |-> "uentity", n |-> <<120, 101>>, ext |-> "system", pub |-> <<>>, sys |-> <<101, 46, 120>>, ndata |-> <<>>]
+SExt == [k |-> "stag", n |-> Na, lex |-> "ok", attrs |-> <<[n |-> Nx, v |-> <<EI(<<120, 101>>)>>]>>]
+TExt == [k |-> "text", items |-> <<EI(<<120, 101>>)>>]     \* external parsed entity in content: outside the profile
+
 \* entity cycle (the declarations are well-formed, the reference is not)
 EC1 == [k |-> "entity", n |-> <<99, 49>>, v |-> <<EI(<<99, 50>>)>>]
 EC2 == [k |-> "entity", n |-> <<99, 50>>, v |-> <<CI(120), EI(<<99, 49>>)>>]
@@ -135,7 +144,7 @@ SCyc == [k |-> "stag", n |-> Na, lex |-> "ok", attrs |-> <<[n |-> Nx, v |-> <<EI
 
 \* a fixed rich internal subset, so that the bounded writer also reaches every entity / ATTLIST
 \* feature combination in content within a few more tokens (Prefix = "dtd")
-DtdPrefix == <<DT2, E1, E2, UE, NO, EC1, EC2, AL1, AL3, DE>>
+DtdPrefix == <<DT2, E1, E2, UE, NO, XE, EC1, EC2, AL1, AL3, DE>>
 
 XmlDecls == IF Wide THEN {X1, X2, X3} ELSE {X1, X2}
 Miscs    == IF Wide THEN {COM, COM0, PI1, PI0, WS} ELSE {COM, PI1, WS}
@@ -148,8 +157,9 @@ Inner    == IF Wide THEN {COM, PI1, PI0} ELSE {COM, PI1}
 
 BadContent == {SDup, SUnq, SNosp, SLt, SAmp, S2col, SDig, SRef0, SUnd, TCtl, TFffe, TRef0, TRef1, TRefS,
                TRefF, TRefB, TLt, TAmp, TAmp2, TCde, TUnd, TUnp, CDash, CDas2, PIxml, CDCtl, X1, DT1, E1}
-               \cup (IF Wide \/ Prefix = "dtd" THEN {TCyc, SUnp, SCyc} ELSE {})
-BadTop     == {T1, T3, CD, CDash, PIxml, X1, E1, DE, SDig, S2col, SDup}
+               \cup {CFfff, PICtl}
+               \cup (IF Wide \/ Prefix = "dtd" THEN {TCyc, SUnp, SCyc, SExt, TExt} ELSE {})
+BadTop     == {T1, T3, CD, CDash, PIxml, X1, E1, DE, SDig, S2col, SDup, DTBadP, CFfff}
 BadDtd     == {SA, T1, CDash, PIxml, DT1, X1}
 
 TopTokens == Cardinality({ i \in 1..Len(toks) :
@@ -171,7 +181,9 @@ Cands ==
     [] OTHER -> {}
 
 BadCands ==
-  CASE st.phase \in {"start", "prolog", "afterDtd"} -> BadTop \cup (IF st.phase = "prolog" THEN {X2} ELSE {})
+  CASE st.phase \in {"start", "prolog", "afterDtd"} ->
+         BadTop \cup (IF st.phase = "prolog" THEN {X2} ELSE {}) \cup (IF st.phase = "start" THEN {XBadV, XBadE} ELSE {})
+         \cup (IF st.phase = "afterDtd" /\ Prefix = "dtd" THEN {SUnp, SCyc, SExt} ELSE {})
     [] st.phase = "dtd" -> BadDtd
     [] st.phase = "content" ->
          BadContent \cup {ET(IF st.stack[Len(st.stack)] = Nb THEN Na ELSE Nb)}
